@@ -220,6 +220,8 @@ where
                 // Capture chunk + thread scratch by move
                 scope.spawn(move || {
                     for (idx, out_i) in out_chunk.iter_mut().enumerate() {
+                        #[cfg(poulpy_verif)]
+                        crate::bdd_arithmetic::verif_partition::log(0, thread_idx, thread_idx * chunk_size + idx);
                         let (nodes, state_size) = circuit.get_circuit(thread_idx * chunk_size + idx);
 
                         if state_size == 0 {
